@@ -434,6 +434,12 @@ theorem add_seconds_exact (ms s : Int) (h0 : t0 ≤ ms + 1000 * s) (h1 : ms + 10
   have h := AslProofs.DateArith.addSec_close (toDouble ms).1 ms s (toDouble ms).2 c a b (by unfold t0 tMax at *; omega)
   exact ⟨h, by rw [h], by rw [h]⟩
 
+/-- ... and that sum is again a binary64 value: a significand of at most 53 bits times a power of two -/
+theorem sum_is_binary64 (ms s : Int) (h : t0 ≤ ms ∧ ms ≤ tMax) (h0 : t0 ≤ ms + 1000 * s) (h1 : ms + 1000 * s ≤ tMax) :
+    ∃ m : Int, ∃ e : Nat, m.natAbs ≤ 2 ^ 53 ∧ (addSecD (toDouble ms) s).1 = m * 2 ^ e := by
+  have := AslProofs.DateArith.addSec_is_binary64 ms s (by unfold t0 tMax at *; omega) (by unfold t0 tMax at *; omega)
+  simpa using this
+
 /-- `operator<` on stored dates is the order of the instants (so `==`-free comparisons never confuse two different
 milliseconds, and never order equal ones) -/
 theorem stored_order_is_instant_order (m1 m2 : Int) : ltD (toDouble m1) (toDouble m2) = decide (m1 < m2) :=
